@@ -125,7 +125,7 @@ func (g *c39gen) block(sc *c39scope, depth, n int) []lnode {
 			}
 		case 4, 5:
 			g.loopN++
-			l := lnode{T: "foreach", K: 1 + g.r.Intn(4), V: fmt.Sprintf("e%d", g.loopN), Piped: g.r.Intn(4) == 0}
+			l := lnode{T: "foreach", K: 1 + g.r.Intn(4), V: fmt.Sprintf("e%d", g.loopN), Piped: g.r.Intn(4) == 0, Exitn: g.r.Bool()}
 			inner := &c39scope{names: append(append([]string{}, sc.names...), "foreach"), vars: append(append([]string{}, sc.vars...), l.V), fname: sc.fname}
 			l.Kids = g.block(inner, depth+1, 1+g.r.Intn(3))
 			out = append(out, l)
@@ -181,7 +181,7 @@ func genC39Once(r *Rand, tier string, budget int) (Case, c39W) {
 		case 0: // ends in whatever the generator produced
 		case 1: // ends in a loop that feeds a pipeline and returns from inside it: the pipeline tail is still running
 			g.loopN++
-			l := lnode{T: "foreach", K: 2 + r.Intn(4), V: fmt.Sprintf("e%d", g.loopN), Piped: true}
+			l := lnode{T: "foreach", K: 2 + r.Intn(4), V: fmt.Sprintf("e%d", g.loopN), Piped: true, Exitn: r.Bool()}
 			inner := &c39scope{names: []string{fname, "foreach"}, vars: []string{l.V}, fname: fname}
 			l.Kids = append(l.Kids, g.out(inner))
 			l.Kids = append(l.Kids, lnode{T: "if", Op: "==", CV: l.V, C: 1 + r.Intn(l.K), Kids: []lnode{{T: "return", K: 1 + r.Intn(8)}}})
@@ -253,7 +253,13 @@ func c39Print(b *strings.Builder, nodes []lnode, ind string) {
 			c39Print(b, n.Kids, ind+"  ")
 			b.WriteString(ind + "}")
 			if n.Piped {
-				b.WriteString(" -> regexp s/m/M/")
+				if n.Exitn {
+					// the consumer's parameter is a sub-shell: it is still "starting" when the loop upstream
+					// breaks or returns
+					b.WriteString(" -> regexp \"s/m/${ out M }/\"")
+				} else {
+					b.WriteString(" -> regexp s/m/M/")
+				}
 			}
 		case "while":
 			fmt.Fprintf(b, "%s = 0\n%swhile { $%s < %d } {\n%s  %s = $%s + 1\n", n.V, ind, n.V, n.K, ind, n.V, n.V)
@@ -372,6 +378,7 @@ func (m *c39model) block(nodes []lnode, env map[string]int, fname string) c39ctl
 			if n.Piped {
 				m.piped++
 			}
+			start := len(m.out)
 			var ret c39ctl
 			for i := 1; i <= n.K; i++ {
 				env[n.V] = i
@@ -390,6 +397,17 @@ func (m *c39model) block(nodes []lnode, env map[string]int, fname string) c39ctl
 			}
 			if n.Piped {
 				m.piped--
+				if ret.kind != "" {
+					// A break/continue/return that leaves a loop whose output feeds a pipeline also cancels
+					// that pipeline's consumer (it belongs to the cancelled block). What the loop had written
+					// but the consumer had not yet passed on is gone; the statement says nothing about it, so
+					// every line of this execution of the loop is optional (marked with a leading NUL).
+					for i := start; i < len(m.out); i++ {
+						if !strings.HasPrefix(m.out[i], "\x00") {
+							m.out[i] = "\x00" + m.out[i]
+						}
+					}
+				}
 			}
 			if ret.kind != "" {
 				return ret
@@ -412,16 +430,33 @@ func runC39(c *Case, e *Env) Outcome {
 	m2 := &c39model{w: &w, bareContinueNoop: true}
 	m2.block(w.Main, map[string]int{}, "")
 	m2.emit("end")
+	// same: lines equals want after deleting some of want's optional lines (leading NUL); "?" matches anything
 	same := func(want, lines []string) bool {
-		if len(lines) != len(want) {
-			return false
-		}
-		for i := range want {
-			if want[i] != "?" && want[i] != lines[i] {
-				return false
+		memo := map[[2]int]bool{}
+		var rec func(i, j int) bool
+		rec = func(i, j int) bool {
+			if i == len(want) {
+				return j == len(lines)
 			}
+			k := [2]int{i, j}
+			if v, ok := memo[k]; ok {
+				return v
+			}
+			w, opt := want[i], false
+			if strings.HasPrefix(w, "\x00") {
+				w, opt = w[1:], true
+			}
+			r := false
+			if j < len(lines) && (w == "?" || w == lines[j]) {
+				r = rec(i+1, j+1)
+			}
+			if !r && opt {
+				r = rec(i+1, j)
+			}
+			memo[k] = r
+			return r
 		}
-		return true
+		return rec(0, 0)
 	}
 	for k := 0; k < w.K; k++ {
 		sc := c.Sched
